@@ -16,7 +16,7 @@ RULE = ("Three drivers. (1) Harness-owned schedule: get_pool_executor and as_com
         "(each submitted evaluation contributes exactly one result object, none lost, none duplicated), pooled greedy "
         "selection is compared with the serial branch on the same inputs, and whole optimize() runs of every optimizer "
         "under drawn schedules must satisfy the C01/C02/C03/C10 oracles. (2) Real thread and process pools, workers "
-        "1..16, with per-evaluation delays of 0-2 ms derived from (position, drawn salt) to shuffle completion order; "
+        "1..16, with per-evaluation delays of 0-2 ms derived from (position, drawn salt) to shuffle completion order, or with rare 120 ms stragglers among the first evaluations; in the lazy executor a result(timeout=...) on an evaluation that has not completed yet times out; "
         "same schedule-independent oracles. (3) Worker RNG replay: on continuous tasks the initial generation of a "
         "pooled run must consist of pairwise distinct points (Genetic Algorithm - 8-bit genes - and Imperialist "
         "Competitive build their initial population themselves and never pool; excluded from this sub-check). "
@@ -50,6 +50,10 @@ class LazyFuture:
             self.done = True
 
     def result(self, timeout=None):
+        if timeout is not None and not self.done:
+            # the schedule owns time: an evaluation that has not completed yet may take longer than any timeout
+            import concurrent.futures
+            raise concurrent.futures.TimeoutError()
         self.run()
         if self.exc is not None:
             raise self.exc
@@ -229,7 +233,7 @@ def real_case(draw, optimizer, tier):
         modes=("thread", "process", "process")))
     spec["workers"] = draw(st.integers(1, 16))
     spec["delay_salt"] = draw(st.integers(0, 1000))
-    spec["delay_ms"] = draw(st.sampled_from([0.0, 0.5, 2.0]))
+    spec["delay_ms"] = draw(st.sampled_from([0.0, 0.5, 2.0, 2.0, -120.0]))   # negative: rare 120 ms stragglers
     return spec
 
 
